@@ -672,3 +672,31 @@ def layered_case(rng, nmax=9, n_intermediate=None, coarse_last=False, squash=Fal
     flat = flat_base + '.' + block(last_defs)
     return {'layered': layered, 'flat': flat, 'coarse_last': False, 'levels': n_int + 1, 'mol': mol_dump(m),
             'nparts': len(parts), 'squash': used_squash, 'reuse_names': reuse_names}
+
+
+def block_case(rng):
+    """C06 input of the documented block-copolymer kind: blocks written with the expansion operator inside
+    intermediate-level fragments ([#X]|2 — larger counts are a known finding of the fragment reader) followed
+    by a bonding descriptor.  Block-level descriptors are uniquely labelled per junction and the monomers are
+    symmetric, so that the first-match choice of the resolver cannot change the molecule (ambiguous
+    descriptor sets are outside the composition clause).  Returns layered + flat strings."""
+    monomers = {'PEO': '[<]COC[>]', 'PE': '[<]CC[>]', 'PTHF': '[<]CCOCC[>]', 'PPS': '[<]CSC[>]'}
+    nblocks = rng.randint(1, 3)
+    names = [rng.choice(sorted(monomers)) for _ in range(nblocks)]
+    counts = [rng.choice([1, 2, 2]) for _ in range(nblocks)]
+    written_out = [rng.random() < 0.3 for _ in range(nblocks)]
+    defs1 = []
+    base = ''
+    flat = ''
+    for i, (nm, c, wo) in enumerate(zip(names, counts, written_out)):
+        body = ('[#%s]' % nm) * c if (wo or c == 1) else '[#%s]|%d' % (nm, c)
+        left = '[<j%d]' % i if i > 0 else ''
+        right = '[>j%d]' % (i + 1) if i < nblocks - 1 else ''
+        defs1.append('#B%d=%s%s%s' % (i, left, body, right))
+        base += '[#B%d]' % i
+        flat += ('[#%s]|%d' % (nm, c)) if c > 1 else '[#%s]' % nm
+    used = sorted(set(names))
+    last = '{' + ','.join('#%s=%s' % (n, monomers[n]) for n in used) + '}'
+    layered = '{' + base + '}.{' + ','.join(defs1) + '}.' + last
+    return {'layered': layered, 'flat': '{' + flat + '}.' + last, 'coarse_last': False, 'levels': 2, 'mol': None,
+            'nparts': sum(counts), 'squash': False, 'reuse_names': False, 'block': True}
